@@ -305,6 +305,22 @@ impl ZoSortedStrVec {
         Err(left)
     }
 
+    /// Index of the first string that is >= `needle` (`len()` if there is none)
+    fn lower_bound(&self, needle: &str) -> usize {
+        let mut left = 0;
+        let mut right = self.len;
+
+        while left < right {
+            let mid = left + (right - left) / 2;
+            match self.get(mid) {
+                Some(mid_str) if mid_str < needle => left = mid + 1,
+                _ => right = mid,
+            }
+        }
+
+        left
+    }
+
     /// Check if the collection contains a specific string
     ///
     /// # Arguments
@@ -325,15 +341,10 @@ impl ZoSortedStrVec {
     /// # Returns
     /// An iterator over string slices in the specified range
     pub fn range(&self, start: &str, end: &str) -> ZoSortedStrVecRange<'_> {
-        let start_idx = match self.binary_search(start) {
-            Ok(idx) => idx,
-            Err(idx) => idx,
-        };
-
-        let end_idx = match self.binary_search(end) {
-            Ok(idx) => idx,
-            Err(idx) => idx,
-        };
+        // Lower bounds, not "any equal element": with duplicates the range has to begin at
+        // the first string equal to `start` and stop before the first string equal to `end`
+        let start_idx = self.lower_bound(start);
+        let end_idx = self.lower_bound(end);
 
         ZoSortedStrVecRange {
             vec: self,
